@@ -32,6 +32,8 @@ def gen_env(rng, faulty=True):
     if rng.random() < 0.08:
         e["ambient"] = {"decimal_rounding": rng.choice(["ROUND_DOWN", "ROUND_UP", "ROUND_FLOOR", "ROUND_CEILING", "ROUND_HALF_UP"]),
                         "decimal_prec": rng.choice([28, 6, 3])}
+    if rng.random() < 0.07:
+        e.setdefault("ambient", {})["warnings"] = "error"       # the host process turns warnings into errors
     return e
 
 
